@@ -13,6 +13,7 @@ import sys, os, re, subprocess, json, shutil, time, argparse, hashlib
 from concurrent.futures import ThreadPoolExecutor
 VERIF = os.path.dirname(os.path.dirname(os.path.abspath(__file__)))
 ROOT = os.environ.get('MUTSWEEP_DIR', '/tmp/mutsweep')
+SET = 1
 ORDER = ['C17', 'C16', 'C15', 'C20', 'C10', 'C08', 'C09', 'C12', 'C13', 'C18', 'C19', 'C02', 'C05', 'C03', 'C04', 'C14', 'C07', 'C11', 'C06', 'C01']
 
 def sh(c, cwd=None, env=None, timeout=1800):
@@ -43,6 +44,20 @@ RULES = [
     (re.compile(r'\.is_empty\(\)'), '.len() == 1'),
     (re.compile(r'\.is_none\(\)'), '.is_some()'), (re.compile(r'\.is_some\(\)'), '.is_none()'),
 ]
+# second operator set (--set 2): range ends, orderings, forced branches, end-of-sequence accessors, iteration order
+RULES2 = [
+    (re.compile(r'\.\.='), '..'), (re.compile(r'(?<![.=])\.\.(?![.=])(?=\s*[\w(-])'), '..='),
+    (re.compile(r'Ordering::Less'), 'Ordering::Greater'), (re.compile(r'Ordering::Greater'), 'Ordering::Less'),
+    (re.compile(r'Ordering::Equal'), 'Ordering::Less'),
+    (re.compile(r'\bif (?!let\b)([^{]+?) \{'), 'if true {'), (re.compile(r'\bif (?!let\b)([^{]+?) \{'), 'if false {'),
+    (re.compile(r'\.first\(\)'), '.last()'), (re.compile(r'\.last\(\)'), '.first()'),
+    (re.compile(r'\.min\('), '.max('), (re.compile(r'\.max\('), '.min('),
+    (re.compile(r'\.into_iter\(\)(?!\s*\.rev)'), '.into_iter().rev()'), (re.compile(r'\.iter\(\)(?!\s*\.rev)'), '.iter().rev()'),
+    (re.compile(r'\.rev\(\)'), ''),
+    (re.compile(r'\bSome\(([a-z_]+)\) =>'), 'Some(_) if false =>'),
+    (re.compile(r'\.then_with\('), '.then('), (re.compile(r'\.insert\(0, '), '.push('),
+    (re.compile(r'\.trim\(\)'), ''), (re.compile(r'\.to_vec\(\)\?'), '.to_vec().unwrap_or_default()'),
+]
 INT = re.compile(r'(?<![\w.])(-?\d+)(?![\w.])')
 
 def mutants_of(path, rel):
@@ -70,10 +85,11 @@ def mutants_of(path, rel):
         if ln in skip: continue
         if not s or s.startswith('//') or s.startswith('#[') or s.startswith('use ') or s.startswith('pub use') or s.startswith('mod ') or s.startswith('pub mod'): continue
         scan = strip_for_scan(line)
-        for rx, rep in RULES:
+        for rx, rep in (RULES2 if SET == 2 else RULES):
             for m in rx.finditer(scan):
                 new = line[:m.start()] + rep + line[m.end():]
                 if new != line: out.append((rel, ln, line, new, '%s→%s' % (m.group(0).strip(), rep.strip() or '∅')))
+        if SET == 2: continue
         for m in INT.finditer(scan):
             v = int(m.group(1))
             if abs(v) > 70000: continue
@@ -141,8 +157,9 @@ def main():
     ap = argparse.ArgumentParser()
     ap.add_argument('--workers', type=int, default=6); ap.add_argument('--limit', type=int, default=0)
     ap.add_argument('--files', default=''); ap.add_argument('--stride', type=int, default=1); ap.add_argument('--offset', type=int, default=0)
-    ap.add_argument('--out', default=os.path.join(ROOT, 'results.jsonl'))
+    ap.add_argument('--out', default=os.path.join(ROOT, 'results.jsonl')); ap.add_argument('--set', type=int, default=1)
     a = ap.parse_args()
+    global SET; SET = a.set
     muts = all_mutants([x for x in a.files.split(',') if x] or None)
     muts = muts[a.offset::a.stride]
     if a.limit: muts = muts[:a.limit]
